@@ -92,7 +92,11 @@ TRUSTED = ["the body of a `with ctx.deeper_match(...)` block leaves depth / stac
 NOT_COVERED = ["everything else that C04 states: exceptions of any class raised inside lexing, parsing or the ~70 rules reach the "
                "funnels or the caller unexamined; the funnels themselves (Linter._parse_tokens, render_string, runners) are checked "
                "by syntactic exception-flow obligations and bounded runs (EXTRA/BOUNDED), not proved"]
-MUTANTS = [
+from . import c04_bounded as _c04b  # noqa: E402
+
+EXTRA = list(_c04b.EXTRA)
+BOUNDED = list(_c04b.BOUNDED)
+MUTANTS = list(_c04b.MUTANTS) + [
     ("nodes_limit_ge", "sqlfluff/core/parser/context.py", "        if self.max_parse_nodes > 0 and self.current_parse_nodes > self.max_parse_nodes:", "        if self.max_parse_nodes > 0 and self.current_parse_nodes > self.max_parse_nodes + 1:"),
     ("nodes_limit_wrong_class", "sqlfluff/core/parser/context.py", "            raise SQLParseError(\n                f\"Maximum parse node count exceeded", "            raise RuntimeError(\n                f\"Maximum parse node count exceeded"),
     ("depth_not_restored", "sqlfluff/core/parser/context.py", "            self.match_depth -= 1\n            # Reset back to old name", "            # Reset back to old name"),
